@@ -23,6 +23,9 @@ def run(ctx):
     binp = ctx.build("tvh-agg")
     ctx.harness("agg", binp, ["replay-agg", "--in", r1["emitted"]] + laws)
     ctx.harness("agg2", binp, ["replay-agg", "--in", r2["emitted"]] + laws)
+    # tie-heavy samples of length 4..7 (thorough ..9) over {-1, 0, 1}: moments that hit special values exactly
+    rt = ctx.tlc("agg-ties", "MCAgg", "MCAgg_ties.cfg" if q else "MCAgg_ties_thorough.cfg", workers=12, timeout=3000)
+    ctx.harness("agg-ties", binp, ["replay-agg", "--in", rt["emitted"]] + laws)
     ctx.assumptions += BASE_ASSUMPTIONS + [
         "AggBasic (null-unaware) twins are checked on null-free input only (DESIGN 5.9)",
         "skewness / kurtosis of a constant sample are unspecified (DESIGN 5.6); the mean of an empty masked selection with "
